@@ -238,6 +238,60 @@ def suites(tier, rng, replay):
     return [Suite("converge", "converge", pre, groups)]
 
 
+def extra(tier, rng, workdir):
+    """How many worlds right after a (re)connection, in random histories, fall under the liveness theorems
+    C01_converges_fresh / _forked / _prestart (executable predicates evaluated on the model)."""
+    import re
+    import subprocess
+    n = 200 if tier == "quick" else 1500
+    cases = []
+    for i in range(n):
+        r = rng.fork(70000 + i)
+        c = gen_case(r, i)
+        ops = [o for o in c["ops"][:-1] if not (o[0] == "settle" and o[1] > 100 and r.chance(1, 2))]
+        ops.append(r.choice([["disconnect"], ["restartnode"], ["disconnect"]]))
+        c["ops"] = ops
+        cases.append(c)
+    files = []
+    for si in range(0, len(cases), 100):
+        vf = os.path.join(workdir, "reconnect_%d.v" % si)
+        with open(vf, "w") as f:
+            f.write("From V.lib Require Import Base.\nFrom V.model Require Import Requests Sync SyncSpec Peer.\n"
+                    "From V.gen Require Import Consts.\n"
+                    "From V.proofs Require Import Converge_Proofs Converge_Clean Converge_Fork Converge_Pre.\n")
+            f.write("Definition after (M : nat) par start ops := fold_left (fun w o => fst (cstep maxRequestedBlocks "
+                    "maxPendingBlockSize handshakeTimeout headerTimeout blockTimeout UntrustedHeaderDelta M (table_fn par) "
+                    "w o)) ops (cw_init start).\n")
+            f.write("Definition R := Eval vm_compute in [\n")
+            rows = []
+            for c in cases[si:si + 100]:
+                cfg = c["cfg"]
+                par = "[" + "; ".join("(%s, %s)" % (vlib.z(a), vlib.z(b)) for a, b in cfg["parents"]) + "]"
+                ops = "[" + "; ".join(coq_op(o) for o in c["ops"]) + "]"
+                m = nat(cfg.get("m", 2000))
+                rows.append("  (let par := %s in let w := after %s par %s %s in clean_behind (table_fn par) w || "
+                            "clean_forked %s (table_fn par) w || clean_behind_pre (table_fn par) w)"
+                            % (par, m, vlib.z(cfg["start"]), ops, m))
+            f.write(";\n".join(rows))
+            f.write("].\nPrint R.\n")
+        files.append(vf)
+    procs = [subprocess.Popen(["timeout", "600", "coqc"] + vlib.coq_flags() + [vf], cwd=workdir, stdout=subprocess.PIPE,
+                              stderr=subprocess.PIPE, text=True) for vf in files]
+    tot = yes = 0
+    red = []
+    for vf, p in zip(files, procs):
+        so, se = p.communicate()
+        if p.returncode != 0:
+            red.append({"what": "reconnect-coverage-evaluation", "detail": {"file": vf, "stderr": se[-1500:]}})
+            continue
+        mm = re.search(r"R =\s*(.*?)\n\s*: list", so, re.S)
+        val = vlib.parse_coq_value("= " + mm.group(1) + "\n : x")
+        tot += len(val)
+        yes += sum(1 for v in val if v)
+    return {"failures": [], "red": red, "evaluations": 0,
+            "coverage": {"reconnect_worlds": tot, "reconnect_worlds_covered": yes}}
+
+
 def keyfn(rec):
     ops = rec.get("ops", [])
     step = rec.get("step", 0)
@@ -250,6 +304,7 @@ SPEC = {
     "pid": "C01",
     "props_file": "props/C01.v",
     "suites": suites,
+    "extra": extra,
     "keyfn": keyfn,
     "trusted_base": [
         "Coq 8.16.1 kernel (coqc); vm_compute for evaluating model and monitor on the cases; no native_compute",
